@@ -21,7 +21,7 @@ def spell_value(a, tag):
         return L.ft.Number(a['n'] if a['d'] == 1 else a['n'] / a['d'])
     if tag == 'wfloat':
         return L.ft.Number(a['n'] / a['d'])
-    if tag in ('text', 'scitext', 'badtext', 'oddtext'):
+    if tag in ('text', 'scitext', 'badtext', 'oddtext', 'ltext', 'ptext', 'plustext'):
         return xl.text_of(a)
     if tag == 'wtext':
         return L.ft.Text(xl.text_of(a))
@@ -76,6 +76,51 @@ def formula_with(f, args, pos, via_cell):
         return xl.to_abs(e), text
 
 
+def noisy(a, spelling='native'):
+    """a number that is not whole, a few ulps away: the double a computation such as 0.1+0.2 really yields; Excel (and the
+    specification) takes it for the short decimal it displays as - the text form carries at most 15 significant digits"""
+    import math
+    L = xl.lib()
+    x = math.nextafter(a['n'] / a['d'], math.inf)
+    return L.ft.Number(x) if spelling == 'wrapped' else x
+
+
+def noisy_results(f, args):
+    """the case once more with every non-whole numeric argument replaced by its noisy double: direct, wrapped, and through cells"""
+    L = xl.lib()
+    res = []
+    for sp in ('native', 'wrapped'):
+        try:
+            fn = L.xl.FUNCTIONS[calls.DIRECT_ALIAS.get(f, f)]
+            pargs = [noisy(a, sp) if a['t'] == 'num' and a['d'] != 1 else xl.from_abs(a, sp) for a in args]
+            res.append(('noisy-' + sp, xl.to_abs(fn(*pargs))))
+        except BaseException as e:      # noqa
+            if isinstance(e, (KeyboardInterrupt, SystemExit)):
+                raise
+            res.append(('noisy-' + sp, xl.to_abs(e)))
+    cells, parts = {}, []
+    for i, a in enumerate(args):
+        if a['t'] == 'num' and a['d'] != 1:
+            addr = f'K{70 + i}'
+            cells['Sheet1!' + addr] = ('value', noisy(a))
+            parts.append(addr)
+        else:
+            parts.append(xl.formula_literal(a, cells))
+    if f.startswith('OP_'):
+        p = [calls._paren(x) for x in parts]
+        text = ('=-' + p[0]) if f == 'OP_NEG' else ('=' + p[0] + '%') if f == 'OP_PERCENT' else '=' + p[0] + calls.OPSYM[f] + p[1]
+    else:
+        text = '=' + f + '(' + ','.join(parts) + ')'
+    try:
+        model, ev = xl.build_model(cells, {'Sheet1!Z1': text})
+        res.append(('noisy-formula-cells', xl.to_abs(ev.evaluate('Sheet1!Z1'))))
+    except BaseException as e:      # noqa
+        if isinstance(e, (KeyboardInterrupt, SystemExit)):
+            raise
+        res.append(('noisy-formula-cells', xl.to_abs(e)))
+    return res
+
+
 def worker(blocks):
     out = {'n': 0, 'calls': 0, 'open': 0, 'dis': [], 'samples': [], 'kinds': {}, 'machinery': []}
     for b in blocks:
@@ -93,6 +138,8 @@ def worker(blocks):
             o, stored, text = calls.formula_call(f, args)
             if o is not None:
                 results.append(('formula', o))
+            if any(a['t'] == 'num' and a['d'] != 1 for a in args):
+                results += noisy_results(f, args)
         else:
             if kind == 'spell':
                 base = calls.direct_call(f, case['base'], 'native')
@@ -101,7 +148,7 @@ def worker(blocks):
                     continue
                 exp = base
             results = [('direct:' + tag, call_with(f, args, pos, tag))]
-            if tag in ('int', 'float', 'text', 'scitext', 'bool', 'blank', 'badtext', 'oddtext') and f not in ('OP_POW', 'OP_CONCAT') or tag in ('int', 'text', 'bool', 'blank', 'badtext'):
+            if tag in ('int', 'float', 'text', 'scitext', 'bool', 'blank', 'badtext', 'oddtext', 'ltext', 'ptext', 'plustext') and f not in ('OP_POW', 'OP_CONCAT') or tag in ('int', 'text', 'bool', 'blank', 'badtext', 'ltext', 'ptext'):
                 for via_cell in (False, True):
                     o, text = formula_with(f, args, pos, via_cell)
                     results.append((('formula-cell:' if via_cell else 'formula-literal:') + tag, o))
